@@ -339,6 +339,7 @@ func runC05(c *report.Ctx) {
 
 	// ---- (6) rows readable with the public passphrase hold public keys only -----------------------------------
 	rulePublicRowsHoldNeuteredKeys(c)
+	ruleWipedCacheDropped(c)
 }
 
 func rootBase(fa *ssa.FieldAddr) ssa.Value {
